@@ -150,7 +150,8 @@ pub fn check_file_prop(ctx: &Ctx, p: FileProp) -> i32 {
     let (mut tally, mut meta) = collect_file_prop(ctx, p);
     if p == FileProp::C01 {
         tally.merge(scaling_part(ctx, p));
-        meta.rule = format!("{} Plus the scaling family: every video count 1..={} x three audio cadences x three submission shapes (files of up to ~300 samples), same oracle.", meta.rule, if ctx.thorough { 120 } else { 48 });
+        tally.merge(crate::faults::retry_part(ctx, "C01"));
+        meta.rule = format!("{} On a scripted sink, every representative history x failure at every write call x every error kind x three finish attempts: whenever a finish reports success the sink's bytes must resolve to the accepted frames. Plus the scaling family: every video count 1..={} x three audio cadences x three submission shapes (files of up to ~300 samples), same oracle.", meta.rule, if ctx.thorough { 120 } else { 48 });
     }
     finish(ctx, &tally, meta)
 }
